@@ -96,9 +96,11 @@ def run_case(ctx, data, plan, mode, pseed, foreign=True, label="gen"):
     from pyrtcm import RTCMReader
 
     libs = common.lib_errors()
-    ds = doubles.RecordingStream(data, {int(k): v for k, v in plan.items()},
-                                 rng=random.Random(pseed), record_callers=True,
-                                 budget=4 * len(data) + 64 + 8 * len(plan))
+    # every third case runs over a seekable double (regular file / BytesIO semantics)
+    cls = doubles.SeekableRecordingStream if (pseed + len(data)) % 3 == 0 else doubles.RecordingStream
+    ds = cls(data, {int(k): v for k, v in plan.items()}, rng=random.Random(pseed), record_callers=True,
+             budget=6 * len(data) + 64 + 8 * len(plan))
+    ctx.hit("seekable_stream" if cls is doubles.SeekableRecordingStream else "plain_stream")
     rdr = RTCMReader(ds, validate=1, quitonerror=mode, errorhandler=(lambda e: None))
     delivered = []
     after_fault = 0
@@ -205,7 +207,7 @@ def run(ctx):
     common.quiet_logging()
     rng = ctx.rng
     # (a) enumeration: one fault of each kind at every read index of small streams
-    nsmall = ctx.n(480, 8000)
+    nsmall = ctx.n(360, 8000)
     for _ in range(nsmall):
         data, foreign = make_stream(rng, small=True)
         ncalls = min(count_calls(data), 400)
